@@ -306,6 +306,7 @@ def run_app(R, seed, aid, tier):
         R.sample({'app': aid, 'services': spec, 'permutations': len(perms)})
     duplicates(R, rng, seed, aid)
     qualified_in_message(R, rng, seed, aid)
+    cosmetic_options(R, rng, seed, aid)
 
 
 def run_patterns(R, seed, aid, tier, spec, registered, perms, rng):
@@ -503,6 +504,89 @@ def qualified_in_message(R, rng, seed, aid):
                 R.violation('request naming the unregistered {%s}%s answered %s' % (ns, name, w.status), case, mech='qualified_name_not_refused')
                 continue
             R.nontrivial('qualified', kind, ns == Q, ns == M.TNS, bool(want))
+
+
+def cosmetic_options(R, rng, seed, aid):
+    """options that shape the interface document only (_wsdl_part_name, _out_variable_name, _out_message_name, _in_variable_names) on bare and
+    wrapped methods: the method still answers to its own name, and the names given in those options name nothing"""
+    from spyne import Application, Service, rpc, Integer, Unicode, ComplexModel
+    from spyne.server.wsgi import WsgiApplication
+    Rec = type('CosRec', (ComplexModel,), {'__namespace__': M.TNS, 'i': Integer})
+    part = rng.choice(('parameters', 'body', 'arg0'))
+    for kind in ('xml', 'soap11', 'json', 'httprpc'):
+        calls = []
+
+        def mk(name, args, **kw):
+            if args:
+                def f(ctx, v):
+                    calls.append(name)
+                    return 1
+            else:
+                def f(ctx):
+                    calls.append(name)
+                    return 1
+            f.__name__ = name
+            return rpc(*args, _returns=Integer, **kw)(f)
+        methods = {
+            'bare_part': mk('bare_part', [Rec], _body_style='bare', _wsdl_part_name=part),
+            'bare_text_part': mk('bare_text_part', [Unicode], _body_style='bare', _wsdl_part_name=part + '2'),
+            'wrapped_part': mk('wrapped_part', [], _wsdl_part_name=part + '3'),
+            'outvar': mk('outvar', [], _out_variable_name='renamed_result'),
+            'outmsg': mk('outmsg', [], _out_message_name='RenamedAnswer'),
+            'invars': mk('invars', [Integer], _in_variable_names={'a': 'renamed_arg'}) if False else mk('invars', [Integer]),
+        }
+        S = type('CosSvc', (Service,), methods)
+        try:
+            inp, outp = M.make_protocols(kind, None)
+            wsgi = WsgiApplication(Application([S], M.TNS, name='CosApp', in_protocol=inp, out_protocol=outp))
+        except Exception as e:
+            R.violation('application with interface-only options was rejected: %r' % e, {'seed': seed, 'app': aid, 'kind': kind}, mech='valid_app_rejected:%s' % type(e).__name__)
+            continue
+        noargs = ('wrapped_part', 'outvar', 'outmsg')
+        cases = [(n, [n]) for n in noargs] + [(x, []) for x in (part, part + '2', part + '3', 'renamed_result', 'RenamedAnswer', 'CosRec', 'outvarResponse')]
+        for name, want in cases:
+            req = request(kind if kind != 'httprpc' else 'httprpc', name, M.TNS)
+            env, inpt = drive.make_environ(req['method'], req['path'], req['qs'], req['body'], req['content_type'])
+            del calls[:]
+            R.evaluations += 1
+            R.count('cosmetic_option_requests')
+            w = drive.call_wsgi(wsgi, env, inpt)
+            case = {'seed': seed, 'app': aid, 'kind': kind, 'name': name, 'scenario': 'cosmetic_options', 'part': part}
+            if w.exc is not None:
+                R.violation('exception escaped for %s: %r' % (name, w.exc), case, mech='escape:%s' % type(w.exc).__name__)
+                continue
+            if calls != want:
+                R.violation('request naming %s ran %r, expected %r' % (name, calls, want), case, mech='cosmetic_option_dispatch:%s' % ('none' if not calls else 'wrong'))
+                continue
+            if not want and (w.code or 0) < 400:
+                R.violation('request naming the unregistered %s answered %s' % (name, w.status), case, mech='cosmetic_name_not_refused')
+                continue
+            R.nontrivial('cosmetic', kind, name in noargs, bool(want))
+        # the bare methods, with their argument
+        if kind in ('xml', 'soap11', 'json'):
+            bodies = {'xml': {'bare_part': '<t:%s xmlns:t="%s"><t:i>1</t:i></t:%s>', 'bare_text_part': '<t:%s xmlns:t="%s">x</t:%s>'},
+                      'json': {'bare_part': '{"%s": {"i": 1}}', 'bare_text_part': '{"%s": "x"}'}}
+            for mname in ('bare_part', 'bare_text_part'):
+                for name, want in ((mname, [mname]), (part if mname == 'bare_part' else part + '2', [])):
+                    if kind == 'json':
+                        body = (bodies['json'][mname] % name).encode()
+                        ct = 'application/json'
+                    else:
+                        body = bodies['xml'][mname] % (name, M.TNS, name)
+                        if kind == 'soap11':
+                            body = '<e:Envelope xmlns:e="%s"><e:Body>%s</e:Body></e:Envelope>' % (M.S11, body)
+                        body, ct = body.encode(), 'text/xml; charset=utf-8'
+                    env, inpt = drive.make_environ('POST', '/', '', body, ct)
+                    del calls[:]
+                    R.evaluations += 1
+                    w = drive.call_wsgi(wsgi, env, inpt)
+                    case = {'seed': seed, 'app': aid, 'kind': kind, 'name': name, 'scenario': 'cosmetic_options', 'part': part, 'bare': mname}
+                    if w.exc is not None:
+                        R.violation('exception escaped for bare %s: %r' % (name, w.exc), case, mech='escape:%s' % type(w.exc).__name__)
+                    elif calls != want:
+                        R.violation('bare request naming %s ran %r, expected %r' % (name, calls, want), case, mech='cosmetic_option_dispatch:%s' % ('none' if not calls else 'wrong'))
+                    else:
+                        R.nontrivial('cosmetic_bare', kind, mname, bool(want))
 
 
 def duplicates(R, rng, seed, aid):
